@@ -30,6 +30,7 @@ class Result(object):
         self.escaped = []
         self.dropped = 0
         self.hung = False
+        self.real_server = True
 
     def stream(self, conn):
         return b''.join(self.sent.get(conn, []))
@@ -47,6 +48,54 @@ class FakeServer(object):
         self.broadcast_enable = broadcast_enable
         self.control = ModbusControlBlock()
         self.active_connections = {}
+
+
+def make_server(frontend, ctx, framer, flags, loop=None):
+    """The REAL server object of the front-end (so that its constructor's option wiring is exercised), built
+    without opening any socket or port: the socketserver base constructor / serial connect are stubbed for the
+    sync servers, the asyncio servers' un-awaited create_server coroutine is closed.  Falls back to a plain
+    namespace (FakeServer) where the real class cannot be constructed on this interpreter."""
+    try:
+        if frontend in ('sync_tcp', 'sync_udp'):
+            import socketserver
+            import pymodbus.server.sync as ss
+            base = socketserver.ThreadingTCPServer if frontend == 'sync_tcp' else socketserver.ThreadingUDPServer
+            cls = ss.ModbusTcpServer if frontend == 'sync_tcp' else ss.ModbusUdpServer
+            orig = base.__init__
+            base.__init__ = lambda self, *a, **k: None
+            try:
+                srv = cls(ctx, framer, None, ('127.0.0.1', 0), **flags)
+            finally:
+                base.__init__ = orig
+            srv.verif_real = True
+            return srv
+        if frontend == 'sync_serial':
+            import pymodbus.server.sync as ss
+            orig = ss.ModbusSerialServer._connect
+            ss.ModbusSerialServer._connect = lambda self: False
+            try:
+                srv = ss.ModbusSerialServer(ctx, framer, None, port='/dev/null', **flags)
+            finally:
+                ss.ModbusSerialServer._connect = orig
+            srv.verif_real = True
+            return srv
+        if frontend in ('aio_tcp', 'aio_udp'):
+            import pymodbus.server.async_io as sa
+            cls = sa.ModbusTcpServer if frontend == 'aio_tcp' else sa.ModbusUdpServer
+            srv = cls(ctx, framer, None, ('127.0.0.1', 0), loop=loop, **flags)
+            try:
+                srv.server_factory.close()       # never awaited: no socket is ever created
+            except Exception:
+                pass
+            if not hasattr(srv, 'active_connections'):
+                srv.active_connections = {}
+            srv.verif_real = True
+            return srv
+    except Exception:
+        pass
+    srv = FakeServer(ctx, framer, **flags)
+    srv.verif_real = False
+    return srv
 
 
 def _conns(script):
@@ -114,7 +163,8 @@ class _SyncConn(object):
 def _run_sync_stream(frontend, framing_cls, ctx, script, flags):
     import pymodbus.server.sync as ss
     res = Result()
-    srv = FakeServer(ctx, framing_cls, **flags)
+    srv = make_server(frontend, ctx, framing_cls, flags)
+    res.real_server = srv.verif_real
     conns = {}
     threads = {}
 
@@ -173,7 +223,8 @@ def _run_sync_stream(frontend, framing_cls, ctx, script, flags):
 def _run_sync_udp(framing_cls, ctx, script, flags):
     import pymodbus.server.sync as ss
     res = Result()
-    srv = FakeServer(ctx, framing_cls, **flags)
+    srv = make_server('sync_udp', ctx, framing_cls, flags)
+    res.real_server = srv.verif_real
     for c in _conns(script):
         res.sent[c] = []
         res.closed[c] = False
@@ -231,7 +282,8 @@ def _run_aio(frontend, framing_cls, ctx, script, flags):
     async def main():
         loop = asyncio.get_event_loop()
         loop.set_exception_handler(lambda l, c: loop_errors.append(repr(c.get('exception') or c.get('message'))))
-        srv = FakeServer(ctx, framing_cls, **flags)
+        srv = make_server(frontend, ctx, framing_cls, flags, loop)
+        res.real_server = srv.verif_real
         handlers = {}
         transports = {}
         if frontend == 'aio_tcp':
@@ -404,8 +456,8 @@ def run(frontend, framing, ctx, script, ignore_missing_slaves=False, broadcast_e
         if d is None:
             if frontend == 'sync_tcp':
                 norm.append((c, None, None))
-        elif d:
-            norm.append((c, d, flag))
+        elif d or frontend in DATAGRAM:
+            norm.append((c, d, flag))      # a zero-length datagram is a datagram; a zero-length stream read is not
     script = norm
     fc = pm.framer_class(framing)
     flags = {'ignore_missing_slaves': ignore_missing_slaves, 'broadcast_enable': broadcast_enable}
